@@ -71,30 +71,31 @@ DropDupOf(T, dupf, asc) == LET vs == SortSeqOfSet(ColVals(T, dupf))
                            IN  [k \in DOMAIN vs |-> T[BestIdx(T, dupf, asc, vs[k])]]
 
 \* object-number shift used by both merges: an input whose smallest object number does not exceed the running
-\* maximum is shifted just above it; empty inputs are skipped
+\* maximum is shifted just above it; empty inputs are skipped; any number of inputs
 ShiftObj(T, add) == IF T = <<>> THEN T
                     ELSE LET mn == SetMin(ColVals(T, "obj"))
                          IN  IF mn <= add THEN [i \in DOMAIN T |-> [T[i] EXCEPT !.obj = @ + (add - mn + 1)]] ELSE T
-ConcatShift(T1, T2) == LET S1 == ShiftObj(T1, 0)
-                           a1 == IF S1 = <<>> THEN 0 ELSE SetMax(ColVals(S1, "obj"))
-                       IN  S1 \o ShiftObj(T2, a1)
+RECURSIVE ConcatFrom(_, _, _)
+ConcatFrom(Ins, k, add) == IF k > Len(Ins) THEN <<>>
+                           ELSE LET S == ShiftObj(Ins[k], add)
+                                    nx == IF S = <<>> THEN add ELSE SetMax(ColVals(S, "obj"))
+                                IN  S \o ConcatFrom(Ins, k + 1, nx)
+ConcatShift(Ins) == ConcatFrom(Ins, 1, 0)
 
 RenumberOf(T) == [i \in DOMAIN T |-> [T[i] EXCEPT !.sid = i]]
 
-MergeRenumberOf(T1, T2) == RenumberOf(ConcatShift(T1, T2))
-MergeDropDupOf(T1, T2) == DropDupOf(ConcatShift(T1, T2), "sid", FALSE)
+MergeRenumberOf(Ins) == RenumberOf(ConcatShift(Ins))
+MergeDropDupOf(Ins) == DropDupOf(ConcatShift(Ins), "sid", FALSE)
 
 \* renumber_objects_sequentially(start): tomograms in ascending order, inside a tomogram the object numbers in
 \* order of first appearance, numbers running on from tomogram to tomogram
 TomoObj(T) == { <<T[i].tomo, T[i].obj>> : i \in DOMAIN T }
 FirstPos(T, t, o) == SetMin({ j \in DOMAIN T : T[j].tomo = t /\ T[j].obj = o })
-NewObj(T, i, start) ==
-    LET t == T[i].tomo
-        before == Cardinality({ p \in TomoObj(T) : p[1] < t })
-        mine == FirstPos(T, t, T[i].obj)
-        rank == Cardinality({ p \in TomoObj(T) : p[1] = t /\ FirstPos(T, t, p[2]) <= mine })
-    IN  start + before + rank - 1
-RenumberObjectsOf(T, start) == [i \in DOMAIN T |-> [T[i] EXCEPT !.obj = NewObj(T, i, start)]]
+RenumberObjectsOf(T, start) ==
+    LET pairs == TomoObj(T)
+        fp == [p \in pairs |-> FirstPos(T, p[1], p[2])]
+        num == [p \in pairs |-> start - 1 + Cardinality({ q \in pairs : q[1] < p[1] \/ (q[1] = p[1] /\ fp[q] <= fp[p]) })]
+    IN  [i \in DOMAIN T |-> [T[i] EXCEPT !.obj = num[<<T[i].tomo, T[i].obj>>]]]
 
 -----------------------------------------------------------------------------
 (* 2. The property clauses, as predicates on (inputs, parameters, result) *)
@@ -150,39 +151,43 @@ SameBut(r, q, touched) == /\ r.tag = q.tag /\ r.tomo = q.tomo /\ r.score = q.sco
                           /\ ("sid" \in touched \/ r.sid = q.sid)
                           /\ ("obj" \in touched \/ r.obj = q.obj)
 
-\* object numbers of a merged table: grouping kept inside each input, no number shared by the two inputs
-ObjectsKeptApart(T1, T2, P) ==
-    \A i, j \in DOMAIN P :
-        LET ti == P[i].tag
-            tj == P[j].tag
-        IN  IF ti \in Tags(T1) /\ tj \in Tags(T1)
-               THEN (P[i].obj = P[j].obj) <=> (RowOfTag(Range(T1), ti).obj = RowOfTag(Range(T1), tj).obj)
-            ELSE IF ti \in Tags(T2) /\ tj \in Tags(T2)
-               THEN (P[i].obj = P[j].obj) <=> (RowOfTag(Range(T2), ti).obj = RowOfTag(Range(T2), tj).obj)
+\* the inputs of a merge: a sequence of tables with pairwise disjoint tags
+AllRows(Ins) == UNION { Range(Ins[k]) : k \in DOMAIN Ins }
+AllTags(Ins) == UNION { Tags(Ins[k]) : k \in DOMAIN Ins }
+TotalLen(Ins) == Cardinality(UNION { { <<k, i>> : i \in DOMAIN Ins[k] } : k \in DOMAIN Ins })
+SrcOf(Ins, tg) == CHOOSE k \in DOMAIN Ins : tg \in Tags(Ins[k])
+
+\* object numbers of a merged table: grouping kept inside each input, no number shared by two inputs
+ObjectsKeptApart(Ins, P) ==
+    LET src == [tg \in Tags(P) |-> SrcOf(Ins, tg)]
+        old == [tg \in Tags(P) |-> RowOfTag(Range(Ins[src[tg]]), tg).obj]
+    IN  \A i, j \in DOMAIN P :
+            IF src[P[i].tag] = src[P[j].tag]
+            THEN (P[i].obj = P[j].obj) <=> (old[P[i].tag] = old[P[j].tag])
             ELSE P[i].obj # P[j].obj
 
 \* "merging with renumbering yields subtomogram numbers 1..N and object numbers that never collide across
-\* inputs while keeping each input's grouping" (inputs have disjoint tags)
-MergeNumbers(T1, T2, P) ==
-    /\ Len(P) = Len(T1) + Len(T2)
-    /\ Tags(P) = Tags(T1) \cup Tags(T2)
+\* inputs while keeping each input's grouping" - any number of inputs
+MergeNumbers(Ins, P) ==
+    /\ Len(P) = TotalLen(Ins)
+    /\ Tags(P) = AllTags(Ins)
     /\ Cardinality(Tags(P)) = Len(P)
     /\ ColVals(P, "sid") = 1..Len(P)
-    /\ \A i \in DOMAIN P : SameBut(P[i], RowOfTag(Range(T1) \cup Range(T2), P[i].tag), {"sid", "obj"})
-    /\ ObjectsKeptApart(T1, T2, P)
+    /\ \A i \in DOMAIN P : SameBut(P[i], RowOfTag(AllRows(Ins), P[i].tag), {"sid", "obj"})
+    /\ ObjectsKeptApart(Ins, P)
 
 \* merge-and-drop-duplicates: one best-scoring row per subtomogram number of the union, rows otherwise intact
-\* (object numbers may be shifted, grouping inside an input kept)
-MergeDropDupOneBest(T1, T2, P) ==
-    LET U == T1 \o T2 IN
-    /\ ColVals(P, "sid") = ColVals(U, "sid")
-    /\ Len(P) = Cardinality(ColVals(U, "sid"))
-    /\ Tags(P) \subseteq Tags(U)
+\* (object numbers may be shifted: grouping inside an input kept, inputs kept apart)
+MergeDropDupOneBest(Ins, P) ==
+    LET U == AllRows(Ins) IN
+    /\ ColVals(P, "sid") = { r.sid : r \in U }
+    /\ Len(P) = Cardinality({ r.sid : r \in U })
+    /\ Tags(P) \subseteq AllTags(Ins)
     /\ Cardinality(Tags(P)) = Len(P)
     /\ \A i \in DOMAIN P :
-          /\ SameBut(P[i], RowOfTag(Range(U), P[i].tag), {"obj"})
-          /\ \A j \in DOMAIN U : U[j].sid = P[i].sid => P[i].score >= U[j].score
-    /\ ObjectsKeptApart(T1, T2, P)
+          /\ SameBut(P[i], RowOfTag(U, P[i].tag), {"obj"})
+          /\ \A r \in U : r.sid = P[i].sid => P[i].score >= r.score
+    /\ ObjectsKeptApart(Ins, P)
 
 \* renumber_particles: numbers 1..N, nothing else touched
 ParticlesRenumbered(T, P) ==
